@@ -150,14 +150,14 @@ theorem step_list {n : Nat} (ih : SimAt c n) {es es' : List Expr} {ρ ρ' : Sem.
   cases es with
   | nil =>
     cases es' with
-    | nil => rw [evalList_nil, evalList_nil]; exact RRel.ok .nil hw
+    | nil => rw [evalList_nil_at, evalList_nil_at]; exact RRel.ok .nil hw
     | cons _ _ => simp [eOkL] at h
   | cons e es =>
     cases es' with
     | nil => simp [eOkL] at h
     | cons e' es' =>
       simp only [eOkL, Bool.and_eq_true] at h
-      rw [evalList_cons, evalList_cons]
+      rw [evalList_cons_at, evalList_cons_at]
       refine (ih.expr h.1 hρ hw).andThen ?_
       intro v v' w1 w1' hv hw1
       refine (ih.list h.2 hρ hw1).andThen ?_
@@ -173,7 +173,7 @@ theorem step_arms {n : Nat} (ih : SimAt c n) {arms arms' : List Arm} {d d' : Opt
     cases arms' with
     | cons _ _ => simp [eOkA] at h
     | nil =>
-      rw [evalArms_nil, evalArms_nil]
+      rw [evalArms_nil_at, evalArms_nil_at]
       cases d with
       | none =>
         cases d' with
@@ -192,7 +192,7 @@ theorem step_arms {n : Nat} (ih : SimAt c n) {arms arms' : List Arm} {d d' : Opt
     | cons a' rest' =>
       obtain ⟨lhs', body'⟩ := a'
       simp only [eOkA, Bool.and_eq_true] at h
-      rw [evalArms_cons, evalArms_cons, armMatches_rel h.1.1 hv]
+      rw [evalArms_cons_at, evalArms_cons_at, armMatches_rel h.1.1 hv]
       split
       · exact ih.expr h.1.2 hρ hw
       · exact ih.arms h.2 hd hρ hw hv
